@@ -13,7 +13,7 @@
 ##############################################################################
 """Data Chunk Receiver"""
 
-from waitress.rfc7230 import CHUNK_EXT_RE, ONLY_HEXDIG_RE
+from waitress.rfc7230 import CHUNK_EXT_RE, HEADER_FIELD_RE, ONLY_HEXDIG_RE
 from waitress.utilities import BadRequest, find_double_newline
 
 
@@ -185,6 +185,14 @@ class ChunkedReceiver:
                     # Finished the trailer.
                     self.completed = True
                     self.trailer = trailer[:pos]
+
+                    for line in self.trailer.split(b"\r\n"):
+                        # every trailer line must be a valid field line; this
+                        # also refuses bare CR or LF inside the trailer
+                        if line and not HEADER_FIELD_RE.match(line):
+                            self.error = BadRequest("Invalid trailer")
+
+                            break
 
                     return orig_size - (len(trailer) - pos)
 
